@@ -72,6 +72,14 @@ def _run_chunk(chunk):
 
 
 def _worker_main(modname, wid, tasks, results):
+    # library code prints when a check flips a `verbose` parameter: keep it off the check's stdout (results travel
+    # through the queue, never through stdout)
+    try:
+        dn = os.open(os.devnull, os.O_WRONLY)
+        os.dup2(dn, 1)
+        os.dup2(dn, 2)
+    except OSError:
+        pass
     try:
         _init_worker(modname)
     except Exception as e:
